@@ -183,3 +183,107 @@ Theorem C17_nonvacuous :
   end_block_gas 1000 700 (of_int 1 / 2) = GSet 700.
 Proof. exact ex_three_branches. Qed.
 Print Assumptions C17_nonvacuous.
+
+(** ---- the gas figure of a block of delivered transactions ----
+    [mkdtx declared used ante] is one delivered transaction: its gas limit, the
+    gas charged to the block for it, whether its ante handler succeeded.
+    [fold_wanted] is the running total of app/ante/evm/fee_market.go
+    (GasWantedDecorator -> AddTransientGasWanted: uint64 addition, no cap, kept
+    only when the ante handler succeeds); [block_figure enabled max_gas mult txs]
+    is what EndBlock stores after the block ([enabled] = base fee enabled at
+    that height); [declared_sum] = sum of the gas limits of the transactions
+    that passed the ante handler; [block_used] = sum of the gas used, at most the
+    block gas meter's limit. *)
+
+(** For ALL lists of transactions: the stored figure is
+    max(floor(declared gas of the block x multiplier), gas used). *)
+Theorem C17_block_figure_is_max :
+  forall mg m txs v,
+    Forall tx_wf txs -> declared_sum txs <= max_uint64 ->
+    block_figure true mg m txs = GSet v ->
+    v = Z.max (declared_sum txs * m / prec) (block_used (meter_limit mg) txs).
+Proof. exact block_figure_is_max. Qed.
+Print Assumptions C17_block_figure_is_max.
+
+(** The running total itself is the plain sum (no cap at the block gas limit or
+    anywhere else below 2^64) ... *)
+Theorem C17_declared_gas_is_the_sum :
+  forall txs, Forall tx_wf txs -> declared_sum txs <= max_uint64 -> fold_wanted txs = declared_sum txs.
+Proof. exact fold_wanted_sum. Qed.
+Print Assumptions C17_declared_gas_is_the_sum.
+
+(** ... transactions whose ante handler failed are not counted, transactions
+    that fail later are ... *)
+Theorem C17_failed_ante_not_counted :
+  forall en txs, block_wanted en (filter t_ante txs) = block_wanted en txs.
+Proof. exact failed_ante_not_counted. Qed.
+Print Assumptions C17_failed_ante_not_counted.
+
+(** ... and with the base fee disabled the figure is the gas used. *)
+Theorem C17_block_figure_disabled :
+  forall mg m txs v,
+    Forall tx_wf txs -> block_figure false mg m txs = GSet v -> v = block_used (meter_limit mg) txs.
+Proof. exact block_figure_disabled. Qed.
+Print Assumptions C17_block_figure_disabled.
+
+(** Monotone in the declared gas of every transaction (same outcomes, same gas
+    used, every gas limit at least as large: the figure is at least as large). *)
+Theorem C17_block_figure_mono_in_declared :
+  forall mg m l1 l2 v1 v2,
+    Forall2 tx_le l1 l2 -> Forall tx_wf l1 -> Forall tx_wf l2 -> declared_sum l2 <= max_uint64 -> 0 <= m ->
+    block_figure true mg m l1 = GSet v1 -> block_figure true mg m l2 = GSet v2 -> v1 <= v2.
+Proof. exact block_figure_mono_declared. Qed.
+Print Assumptions C17_block_figure_mono_in_declared.
+
+(** A block whose declared gas times the multiplier exceeds the target raises
+    the next base fee by max(1, base x (g-T) / T / denominator) >= 1, whatever
+    gas it actually used: the figure cannot be pushed down to the target by the
+    way the gas is declared. *)
+Theorem C17_over_declared_block_raises_base_fee :
+  forall p h h' mg txs g v,
+    Forall tx_wf txs -> declared_sum txs <= max_uint64 -> fm_enabled p h = true ->
+    block_figure (fm_enabled p h) mg (p_min_gas_mult p) txs = GSet g ->
+    target p mg < declared_sum txs * p_min_gas_mult p / prec ->
+    calc_base_fee p h' mg g = RVal v -> h' <> p_enable_height p ->
+    exists base, p_base_fee p = Some base /\ target p mg < g /\
+      v = base + Z.max 1 (base * (g - target p mg) / target p mg / p_denom p) /\ base + 1 <= v.
+Proof. exact over_declared_raises. Qed.
+Print Assumptions C17_over_declared_block_raises_base_fee.
+
+(** Capping the running total at the block gas limit refutes the statement:
+    limit 20 000 000, elasticity 2, multiplier 1/2, five transactions declaring
+    8 000 000 each: the code's accumulation stores 20 000 000 and the base fee
+    goes from 1 000 000 000 to 1 125 000 000; the capped accumulation stores
+    10 000 000 = T and the base fee stays, while the block satisfies the
+    hypothesis of the theorem above (40 000 000 x 1/2 > 10 000 000). *)
+Theorem C17_capped_accumulation_refuted :
+  block_figure true (Some 20000000) (p_min_gas_mult ex_params) seed_txs = GSet 20000000 /\
+  calc_base_fee ex_params 10 (Some 20000000) 20000000 = RVal 1125000000 /\
+  block_figure_capped (Some 20000000) (p_min_gas_mult ex_params) seed_txs = GSet 10000000 /\
+  target ex_params (Some 20000000) = 10000000 /\
+  calc_base_fee ex_params 10 (Some 20000000) 10000000 = RVal 1000000000 /\
+  declared_sum seed_txs = 40000000 /\
+  target ex_params (Some 20000000) < declared_sum seed_txs * p_min_gas_mult ex_params / prec.
+Proof. exact capped_accumulation_refuted. Qed.
+Print Assumptions C17_capped_accumulation_refuted.
+
+(** The hypothesis "the declared gas of the block fits a uint64" cannot be
+    dropped (AddTransientGasWanted adds with uint64 +, unguarded): three
+    transactions declaring 2^63-1 each — the most a transaction may declare,
+    possible only with unlimited block gas — leave a running total of 2^63-3. *)
+Theorem C17_declared_sum_wrap_refuted :
+  let txs := repeat (mkdtx 9223372036854775807 100000 true) 3 in
+  Forall tx_wf txs /\ max_uint64 < declared_sum txs /\ fold_wanted txs = 9223372036854775805 /\
+  block_figure true (Some (-1)) (of_int 1 / 2) txs = GSet 4611686018427387902.
+Proof. exact declared_sum_wrap_refuted. Qed.
+Print Assumptions C17_declared_sum_wrap_refuted.
+
+(** Non-vacuity of the block theorems: the five-transaction block satisfies
+    their hypotheses, and halving every declared gas limit halves its figure. *)
+Theorem C17_block_nonvacuous :
+  Forall tx_wf seed_txs /\ declared_sum seed_txs <= max_uint64 /\ fm_enabled ex_params 9 = true /\
+  block_figure (fm_enabled ex_params 9) (Some 20000000) (p_min_gas_mult ex_params) seed_txs = GSet 20000000 /\
+  Forall2 tx_le (repeat (mkdtx 4000000 106918 true) 5) seed_txs /\
+  block_figure true (Some 20000000) (p_min_gas_mult ex_params) (repeat (mkdtx 4000000 106918 true) 5) = GSet 10000000.
+Proof. exact ex_seed_block. Qed.
+Print Assumptions C17_block_nonvacuous.
